@@ -9,7 +9,7 @@ from gen.util import lib_vs_model, rbytes, short
 
 NEEDS = dict(cli=True, harness=True, shim=False, release=False)
 RULE = ("messages of every length 0..1100 (fills: zeros, 0xff, random non-UTF-8 rotating), 10^k-1, 10^k, 10^k+1 for k <= 6, "
-        "all 256 single-byte messages; library vs Gallina model vs an independent Python Keccak; `hash message` through "
+        "all 256 single-byte messages; messages beyond 1 and 2 MiB, and small messages hashed right after them in the same thread; library vs Gallina model vs an independent Python Keccak; `hash message` through "
         "file and stdin on a sample; a case is distinct by its message bytes")
 TRUSTED = ["C10: Keccak-256 (Prim/Keccak.v) is an executable Gallina re-implementation validated by vectors/differentially, "
            "opaque to the theorems", "C10: Display for usize = minimal decimal digits (Lib/Decimal.v)"]
@@ -40,6 +40,9 @@ def run(ctx):
         fills.append((rng.choice([0, 0x61, 0xff]), rng.randrange(10000, 200000)))
     for n in (10100, 12300, 15000, 16001, 65500, 99999, 100100, 123400, 199999):
         fills.append((0x61, n))
+    # beyond one and two MiB (buffers that are kept, shrunk or replaced above a size threshold)
+    for n in ((1 << 20) + 1, (1 << 21) + rng.randrange(1000)) + (((1 << 22) + 5, 10 ** 7) if thorough else ()):
+        fills.append((rng.choice([0x61, 0xff]), n))
     # (the harness issues the calls of one batch in a pseudo-random order inside persistent processes, so small messages
     # are also hashed AFTER very large ones in the same process/thread)
     calls = [("message.digest", m) for m in msgs] + [("message.digest", bytes([b]) * n) for b, n in fills]
@@ -61,6 +64,15 @@ def run(ctx):
             want = ref(data)
             if r.tag != "ok" or r.fields[0] != want:
                 ctx.violation("digest-eip191", case, want.hex(), str(r))
+    # the same calls again in chosen orders inside ONE process/thread: small messages right after very large ones, a large one
+    # twice, growing and shrinking sizes
+    refmap = {c: r for c, r in zip(calls, impl)}
+    small = [("message.digest", m) for m in (b"", b"a", b"hello world!", msgs[300], msgs[-1])]
+    bigc = [("message.digest", bytes([b]) * n) for b, n in fills if n > 900000]
+    sequences = [[bigc[0]] + small + [bigc[0]] + small[::-1]]
+    sequences.append(small + [x for b_ in bigc for x in (b_, small[0], small[2])])
+    sequences.append(sorted(bigc + small, key=lambda c: len(c[1])) + sorted(bigc + small, key=lambda c: -len(c[1])))
+    ctx.history_independence(sequences, refmap, clause="digest-depends-on-earlier-messages", timeout=300)
     ctx.exhaustive["every length 0..1100"] = True
     ctx.exhaustive["all 256 single-byte messages"] = True
     ctx.sample(dict(op="signing_message", message="68656c6c6f20776f726c6421", digest=ref(b"hello world!").hex()))
